@@ -78,6 +78,14 @@ class SymAPI(object):
         if not ok:
             raise ViolationFound(label, detail)
 
+    def soft_fail(self, label, detail=None):
+        """record a deviation and keep exploring the path (used for deviations that are
+        listed as known findings, so that everything else is still checked behind them);
+        the path is reported as violating `label` when it ends"""
+        self.p.labels_reached.add(label)
+        if not self.p.soft:
+            self.p.soft.append((label, detail))
+
     def fail(self, label, detail=None):
         self.p.labels_reached.add(label)
         raise ViolationFound(label, detail)
